@@ -150,13 +150,45 @@ func (lc *liveChecker) dirtyTargets(f *core.FuncInfo) map[types.Object]string {
 					}
 				}
 			case *ast.TypeAssertExpr, *ast.IndexExpr, *ast.SelectorExpr:
-				if isSessionType(info.TypeOf(src)) {
+				// (`s, ok := m[k]` / `s, ok := v.(T)`: the expression's type is the pair, the value its first part)
+				vt := info.TypeOf(src)
+				if tup, isTup := vt.(*types.Tuple); isTup && tup.Len() > 0 {
+					if i != 0 {
+						continue
+					}
+					vt = tup.At(0).Type()
+				}
+				if isSessionType(vt) {
 					if _, seen := dirty[target]; !seen {
 						dirty[target] = "read from shared storage at " + lc.w.Pos(as.Pos()) + " without an IsClosed test at that point"
 					}
 				}
 			case *ast.SliceExpr:
 				// reslicing keeps the elements
+			case *ast.CallExpr:
+				// what a helper hands back is as good as the helper: one that returns only sessions it has seen
+				// open gives a clean value, any other a value that still has to be tested here
+				vt := info.TypeOf(src)
+				if tup, isTup := vt.(*types.Tuple); isTup && tup.Len() > 0 {
+					if i != 0 {
+						continue
+					}
+					vt = tup.At(0).Type()
+				}
+				if !isSessionType(vt) {
+					continue
+				}
+				callee := core.Callee(info, s)
+				g := lc.w.Info(callee)
+				sub := "is not analysable"
+				if g != nil && g != f {
+					sub = lc.verify(g)
+				}
+				if sub != "" {
+					if _, seen := dirty[target]; !seen {
+						dirty[target] = "handed back by " + core.ExprString(s.Fun) + " at " + lc.w.Pos(as.Pos()) + " without an IsClosed test here (that function " + sub + ")"
+					}
+				}
 			}
 		}
 	}
@@ -740,6 +772,10 @@ func (lc *liveChecker) verify(f *core.FuncInfo) string {
 			continue
 		}
 		e := ast.Unparen(ex.Results[0])
+		if ex.Via != nil && ex.Stmt != nil && len(ex.Stmt.Results) == 1 {
+			// `return helper(..)`: the engine lists the helper's own exits here; the helper is judged as a callee
+			e = ast.Unparen(ex.Stmt.Results[0])
+		}
 		if !isSessionType(info.TypeOf(e)) && !isNilIdent(info, e) {
 			continue
 		}
@@ -782,6 +818,26 @@ func (lc *liveChecker) verify(f *core.FuncInfo) string {
 		case *ast.CallExpr:
 			callee := core.Callee(info, x)
 			g := lc.w.Info(callee)
+			if g == nil && callee == nil {
+				// a function value taken out of a table of the package: every entry is judged
+				n := 0
+				for _, cs := range lc.w.Calls(f) {
+					if cs.Call != x || !cs.Table {
+						continue
+					}
+					for _, t := range cs.Callees {
+						n++
+						if tg := lc.w.Info(t); tg == nil {
+							why = "returns the result of the table entry " + t.Name() + ", which is not analysable"
+						} else if sub := lc.verify(tg); sub != "" && why == "" {
+							why = "returns " + core.ShortKey(t) + "(...) through a table, which " + sub
+						}
+					}
+				}
+				if n > 0 {
+					break
+				}
+			}
 			if g == nil {
 				why = "returns the result of " + core.ExprString(x.Fun) + ", which is not analysable"
 			} else if sub := lc.verify(g); sub != "" {
@@ -882,13 +938,9 @@ func checkC19(r *core.Run) {
 	} else {
 		r.Anchor("C19.live", nil, "SessionManager.selectSession")
 	}
-	// helpers of the policies that return sessions
-	for _, f := range reachFrom(w, policies, pLB) {
-		sig := f.Obj.Type().(*types.Signature)
-		if sig.Results().Len() >= 1 && isSessionType(sig.Results().At(0).Type()) {
-			targets = append(targets, f)
-		}
-	}
+	// (helpers of the policies that hand back sessions are judged where a policy uses what they hand back: a
+	// result returned as it is needs a helper that returns open sessions only, a result tested by the caller does
+	// not — dirtyTargets / verify follow the calls)
 	for _, f := range dedupFns(targets) {
 		r.Fn(f)
 		r.Sites++
